@@ -1274,7 +1274,8 @@ def evaluate__from_datetime_functions(self: XPathFunction, context: ta.ContextTy
     elif self.symbol.startswith('minute'):
         return item.minute
     elif item.microsecond:
-        return Decimal('{}.{}'.format(item.second, item.microsecond))
+        # microseconds are the six digits after the point: '12.005000', not '12.5000'
+        return Decimal('{}.{:06}'.format(item.second, item.microsecond))
     else:
         return item.second
 
